@@ -21,6 +21,7 @@ type treeCfg struct {
 	wBreak    int
 	encrypted bool
 	faultFree bool
+	passive   int // passive receivers (C06 redelivery leg)
 }
 
 func genTreeCfg(r *core.Run) treeCfg {
@@ -47,13 +48,22 @@ func genTreeCfg(r *core.Run) treeCfg {
 }
 
 // setupWorld: owner + one writer account per extra replica, all ACL records applied everywhere.
-func setupWorld(r *core.Run, c treeCfg) *world {
+func setupWorld(r *core.Run, c treeCfg, o treeOpts) *world {
 	w := newWorld(r, c.nreps, 0)
+	w.opts = o
 	if len(w.accs) > 1 {
 		w.space.Add(list.AclPermissionsWriter, w.accs[1:]...)
 	}
 	for i := 0; i < c.nreps; i++ {
 		rep := w.addReplica(w.accs[i])
+		for _, rec := range w.space.Records {
+			must(rep.acl.AddRawRecord(rec))
+		}
+	}
+	for i := 0; i < c.passive; i++ {
+		acc := w.accs[0]
+		rep := w.addReplica(acc)
+		rep.passive = true
 		for _, rec := range w.space.Records {
 			must(rep.acl.AddRawRecord(rec))
 		}
@@ -68,7 +78,7 @@ func (w *world) step(c treeCfg, adds *int) bool {
 	w.pruneStreams()
 	var ups []*replica
 	for _, rep := range w.reps {
-		if rep.up && rep.tree != nil {
+		if rep.up && rep.tree != nil && !rep.passive {
 			ups = append(ups, rep)
 		}
 	}
@@ -126,7 +136,8 @@ func (w *world) step(c treeCfg, adds *int) bool {
 		w.r.Event("stream-break", "stream#%d after %d/%d batches", st.seq, st.next, len(st.batches))
 		st.next = len(st.batches)
 	case 6:
-		rep := w.reps[s.Choose("crashrep", len(w.reps))]
+		act := w.active()
+		rep := act[s.Choose("crashrep", len(act))]
 		if rep.up {
 			rep.shutdown()
 			w.r.Fault("crash")
@@ -145,7 +156,7 @@ func (w *world) step(c treeCfg, adds *int) bool {
 // make progress between faults).
 func crashAllowed(w *world) int {
 	if w.r.Faults["crash"] >= 3 {
-		for _, rep := range w.reps {
+		for _, rep := range w.active() {
 			if !rep.up {
 				return 1 // restarts of downed replicas stay enabled
 			}
@@ -162,9 +173,20 @@ func minInt(a, b int) int {
 	return b
 }
 
-func runC01(r *core.Run) {
+func runC01(r *core.Run) { runTree(r, treeOpts{}) }
+
+// treeOpts selects the extra legs layered on the C01 run by the other tree properties.
+type treeOpts struct {
+	order    bool // C06: order oracles after every event + redelivery leg with passive receivers
+	fullSync bool // C09: full-sync probes at sampled quiescent points
+}
+
+func runTree(r *core.Run, o treeOpts) {
 	c := genTreeCfg(r)
-	w := setupWorld(r, c)
+	if o.order {
+		c.passive = 1 + r.Src.Choose("passive", 3)
+	}
+	w := setupWorld(r, c, o)
 	defer w.cleanup()
 	adds := 0
 	for n := 0; n < c.maxSteps; n++ {
@@ -172,12 +194,27 @@ func runC01(r *core.Run) {
 			break
 		}
 		if n%10 == 0 {
-			w.inRunOrderCheck()
+			w.r.State(core.Mix(0, w.fingerprintShape()))
+		}
+		if o.order && n%4 == 0 {
+			w.crossOrderCheck("in run")
+		}
+		if o.fullSync && r.Src.Flip("probe", 0.15) {
+			w.fullSyncProbe()
 		}
 	}
 	w.r.Event("heal", "faults off: %d messages and %d streams in flight", len(w.msgs), len(w.streams))
 	w.healAndConverge()
-	w.inRunOrderCheck()
+	w.r.State(core.Mix(0, w.fingerprintShape()))
+	if o.order {
+		w.crossOrderCheck("after convergence")
+		w.redeliveryLeg()
+	}
+	if o.fullSync {
+		for i := 0; i < 2; i++ {
+			w.fullSyncProbe()
+		}
+	}
 	nf := 0
 	for _, v := range r.Faults {
 		nf += v
@@ -185,15 +222,10 @@ func runC01(r *core.Run) {
 	r.Nontriv = len(w.created) >= 2 && (nf > 0 || c.faultFree)
 }
 
-// inRunOrderCheck is overridden by the C06 leg; for C01 it only records the abstract state.
-func (w *world) inRunOrderCheck() {
-	w.r.State(core.Mix(0, w.fingerprintShape()))
-}
-
 // fingerprintShape abstracts a world state to per-replica (number of stored changes, number of heads).
 func (w *world) fingerprintShape() string {
 	s := ""
-	for _, rep := range w.reps {
+	for _, rep := range w.active() {
 		if !rep.up || rep.tree == nil {
 			s += "down;"
 			continue
